@@ -1,7 +1,7 @@
 # C13 — background task manager (task/task.go)
 PROPS["C13"] = dict(
     props_file="Properties/C13.v",
-    harnesses=[dict(cmd="task", mod="root", model="Model.Task", quick=500, thorough=20000, shard=100, race=1500,
+    harnesses=[dict(cmd="task", mod="root", model="Model.Task", quick=400, thorough=20000, shard=100, race=1500,
                     require=["op.invoke", "op.invoke.manual", "op.invoke.prompt", "op.invoke.timeout", "op.prio", "op.done", "op.silence", "op.finish", "op.fast",
                              "conc.1", "conc.2", "conc.3",
                              "ev.invoke", "ev.acquire", "ev.decide", "ev.start", "ev.finish", "ev.release", "ev.return",
@@ -11,14 +11,14 @@ PROPS["C13"] = dict(
                              "sched.prio-while-body-running", "sched.prio-nested", "sched.invoke-while-not-quiet",
                              "sched.invoke-while-slots-busy"]),
                # the REAL callers: fs/layer (*layer).BackgroundFetch / Prefetch on a real eStargz layer over a scripted blob
-               dict(cmd="bgfetch", mod="root", model="Model.Task", quick=120, thorough=4000, shard=40, race=400,
+               dict(cmd="bgfetch", mod="root", model="Model.Task", quick=100, thorough=4000, shard=50, race=400,
                     require=["op.bgfetch", "op.prefetch", "op.prio", "op.done", "op.silence", "op.release", "conc.1", "conc.2", "conc.3",
                              "ev.invoke", "ev.acquire", "ev.decide", "ev.start", "ev.finish", "ev.release",
                              "ev.prio-begin", "ev.prio-end", "ev.prio-dec",
                              "sched.prefetch.ok", "sched.prefetch.error", "sched.prefetch.panic", "sched.prio-while-read-running",
                              "sched.bgfetch-while-not-quiet", "sched.release", "sched.reads"]),
                # the premise "begin/end pairs": every body in the repository that calls Do/DonePrioritizedTask, re-extracted from the source
-               dict(cmd="taskpairs", mod="root", model="Model.TaskPairs", quick=150, thorough=5000, shard=50,
+               dict(cmd="taskpairs", mod="root", model="Model.TaskPairs", quick=100, thorough=5000, shard=50,
                     require=["site", "site.fs/fs.go", "site.fs/layer/layer.go", "site.store/manager.go", "synthetic",
                              "verdict.rule-true.leak-false", "verdict.rule-false.leak-true", "verdict.rule-false.leak-false"])],
     rule="scripted schedules on the real task.BackgroundTaskManager (concurrency 1..3, up to 4 concurrent invocations whose bodies "
